@@ -10,7 +10,7 @@ OSCPUS = os.cpu_count()
 
 def run_worker(base, name, job, timeout=300):
     jf = os.path.join(base, name + ".json"); json.dump(job, open(jf, "w"))
-    env = dict(os.environ, PYTHONPATH="/repo", PYTHONDONTWRITEBYTECODE="1"); env.pop("LOKY_MAX_CPU_COUNT", None)
+    env = dict(os.environ, PYTHONPATH=os.environ.get("VERIF_REPO", "/repo"), PYTHONDONTWRITEBYTECODE="1"); env.pop("LOKY_MAX_CPU_COUNT", None)
     try:
         p = subprocess.run(["/venv/bin/python", WORKER, jf], env=env, capture_output=True, text=True, timeout=timeout)
     except subprocess.TimeoutExpired:
